@@ -55,3 +55,13 @@ pub fn yaml_trial_read_ahead_shape(input: &[u8]) -> bool {
         _ => false,
     }
 }
+
+/// The same finding met by a check whose subject is not detection (C01, C03,
+/// C08): the check chose detection for a call because detection of the SLICE
+/// names the right format, delivered the bytes through a reader in small pieces,
+/// and the call failed. True iff that failure is this recorded finding for
+/// `prop`: source selection was detection, the bytes came through a reader, and
+/// the input has the recorded shape.
+pub fn read_ahead_failure(prop: &str, from_is_detection: bool, through_reader: bool, input: &[u8]) -> bool {
+    from_is_detection && through_reader && listed(prop, "C09-yaml-trial-depends-on-read-ahead") && yaml_trial_read_ahead_shape(input)
+}
